@@ -45,6 +45,7 @@ def run(v):
     def cmd_last(d):
         ks = [k for k, f in enumerate(d["named"]) if f["kind"] == "adj" and f["head"]["kind"] == "cmd"]
         return all(k == len(d["named"]) - 1 for k in ks)
+    gfam += D.acmd_alt_family(SEED + 20, 6 if q else 24, maxlen=4 if q else 5, budget=4000 if q else 40000)
     gfam += [d for d in D.acmd_family(SEED + 16, 12 if q else 60, maxlen=4 if q else 5, budget=4000 if q else 50000) if cmd_last(d)]
     gfam_alt = D.acmd_with_alt_family(SEED + 18, 6 if q else 18, maxlen=4 if q else 5, budget=6000 if q else 50000)
     for d in gfam:
